@@ -202,3 +202,54 @@ def small_divisor_top_word_requests(rng, n):
             out.append("k_shdm %d %d %d" % (rng.choice((1, -1)) * sh[0], sh[1], y))
             out.append("k_shdr %d %d %d RoundHalfEven" % (sh[0], sh[1], rng.choice((1, -1)) * y))
     return out
+
+
+def api_small_divisor_top_word(rng, n, fD, fixed_n=None):
+    """API-level version of small_divisor_top_word_requests: mul_rounded / div_rounded operands whose 256-bit
+    intermediate has the upper 128-bit word c*y*2^64 + d (d < y) where y is the 64-bit divisor actually used
+    (10^shift for mul_rounded, the divisor coefficient for div_rounded). The true result is far beyond i128, so
+    the operation must signal. Returns (op, lhs, rhs, n_frac) tuples."""
+    out = []
+    for _ in range(n):
+        # mul_rounded: shift s = p + q - n, divisor 10^s
+        s = rng.randrange(1, 19)
+        y = 10 ** s
+        cmax = (1 << 61) // y
+        if cmax >= 1:
+            c = rng.randrange(1, cmax + 1)
+            d = rng.randrange(0, y) if rng.random() < 0.8 else 0
+            xh = c * y * B + d
+            pr = product_in(rng, xh << 128, (xh + 1) << 128)
+            if pr:
+                for _try in range(20):
+                    p, q = rng.randrange(0, 19), rng.randrange(0, 19)
+                    if fixed_n is not None:
+                        q = fixed_n + s - p
+                        if not 0 <= q <= 18:
+                            continue
+                    if 0 <= p + q - s <= 18:
+                        out.append(("mulr", fD(rng.choice((1, -1)) * pr[0], p), fD(rng.choice((1, -1)) * pr[1], q), p + q - s))
+                        break
+        # div_rounded: dividend x * 10^k, k = n + q - p, divisor coefficient y < 2^64
+        k = rng.randrange(22, 37)
+        cy_max = (10 ** k) >> 65
+        y = rng.randrange(2, max(3, min(cy_max, 1 << 63)))
+        if rng.random() < 0.3:
+            y = rng.choice((2, 3, 7, 10, 10 ** rng.randrange(1, 8), 1 << rng.randrange(1, 12)))
+        if cy_max // y < 1:
+            continue
+        c = rng.randrange(1, cy_max // y + 1)
+        d = rng.randrange(0, y)
+        xh = c * y * B + d
+        lo = xh << 128
+        x = -(-lo // 10 ** k)
+        if x <= M and x * 10 ** k < lo + (1 << 128):
+            for _try in range(40):
+                nn, q = rng.randrange(0, 19), rng.randrange(0, 19)
+                if fixed_n is not None:
+                    nn = fixed_n
+                p = nn + q - k
+                if 0 <= p <= 18:
+                    out.append(("divr", fD(rng.choice((1, -1)) * x, p), fD(rng.choice((1, -1)) * y, q), nn))
+                    break
+    return out
